@@ -566,7 +566,7 @@ func StripTrailingCR(d *model.Doc) int {
 // ---------- hostile texts ----------
 
 var hostileTokens = []string{"\r", "\n", "\r\n", " ", "\t", "\xff", "\xe6\x97", "日", "é", "?", "-", ":", "2020-01-01", "\n\n", "    ", "  ", "1h", "-30m",
-	"(8h!)", "(", ")", "!", "<", ">", "am", "#tag", "=\"", "\x00", " ", "　", " ", "153722867280912930h", "9223372036854775807m", "24:00", "8:00", "0:00", " - ", "\n\t", "\n \n", "\r\r\n", "\n\r"}
+	"(8h!)", "(", ")", "!", "<", ">", "am", "#tag", "=\"", "\x00", " ", "　", " ", "153722867280912930h", "9223372036854775807m", "\ufeff", "\n\ufeff", "24:00", "8:00", "0:00", " - ", "\n\t", "\n \n", "\r\r\n", "\n\r"}
 
 // HugeNumberTokens are duration literals beyond the representable range (known finding F2).
 var HugeNumberTokens = []string{"99999999999999999999h", "9223372036854775808m", "153722867280912931h", "153722867280912930h60m", "-9223372036854775808m"}
@@ -647,4 +647,20 @@ func StyledDoc(t *rapid.T, o Opts) model.Doc {
 		}
 	}
 	return d
+}
+
+// PrefixLine inserts an invisible or blank-like character at the very beginning of one line (not
+// necessarily the first): byte-order mark, zero-width space, NBSP, NUL, form feed, a lone CR. Code
+// that treats "the beginning of the file" or "a blank line" specially must do so consistently
+// wherever the line ends up (in another chunk, in a re-parsed carry, after a reconcile).
+func PrefixLine(t *rapid.T, text string, label string) string {
+	starts := []int{0}
+	for i := 0; i < len(text)-1; i++ {
+		if text[i] == '\n' {
+			starts = append(starts, i+1)
+		}
+	}
+	at := rapid.SampledFrom(starts).Draw(t, label+"At")
+	tok := rapid.SampledFrom([]string{"\ufeff", "\ufeff", "\u200b", "\u00a0", "\x00", "\f", "\r", "\v", "\u0085"}).Draw(t, label+"Tok")
+	return text[:at] + tok + text[at:]
 }
